@@ -60,8 +60,8 @@ func ctHasPrefix(m *msggen.Msg, prefixes ...string) bool {
 }
 
 var (
-	optIn  = []string{"text/", "application/json"}
-	optOut = []string{"application/octet", "multipart/"}
+	optIn  = []string{"text/", "application/json", "form-data"}   // "form-data" is a substring, not a prefix, of multipart/form-data
+	optOut = []string{"application/octet", "multipart/", "plain"} // "plain" is a substring, not a prefix, of text/plain
 	mvCTs  = []string{"application/json", "multipart/"}
 )
 
@@ -268,7 +268,7 @@ type rfWriter struct {
 }
 
 func (p *rfWriter) Write(x []byte) (int, error) { p.b = append(p.b, x...); return len(x), nil }
-func (p *rfWriter) WriteByte(c byte) error       { p.b = append(p.b, c); return nil }
+func (p *rfWriter) WriteByte(c byte) error      { p.b = append(p.b, c); return nil }
 func (p *rfWriter) ReadFrom(r io.Reader) (int64, error) {
 	buf := make([]byte, p.n)
 	var total int64
